@@ -235,6 +235,31 @@ func Call(api string, chunk string, in []byte, wantValue bool) (o Obs) {
 		if n != nil {
 			v = n
 		}
+	// ---- multi-document mode (a stream of JSON texts): callback / non-OnlyOne variants of the strict front-ends
+	case "oj.Parse+cb":
+		p := oj.Parser{}
+		_, err = p.Parse(b, func(any) bool { return false })
+	case "oj.ParseReader+cb":
+		p := oj.Parser{}
+		_, err = p.ParseReader(Chunked(b, chunk), func(any) bool { return false })
+	case "oj.Load+cb":
+		_, err = oj.Load(Chunked(b, chunk), func(any) bool { return false })
+	case "gen.Parse+cb":
+		p := gen.Parser{}
+		_, err = p.Parse(b, func(gen.Node) bool { return false })
+	case "gen.ParseReader+cb":
+		p := gen.Parser{}
+		_, err = p.ParseReader(Chunked(b, chunk), func(gen.Node) bool { return false })
+	case "oj.Validate":
+		p := oj.Validator{}
+		err = p.Validate(b)
+	case "oj.ValidateReader":
+		p := oj.Validator{}
+		err = p.ValidateReader(Chunked(b, chunk))
+	case "oj.Tokenize":
+		err = oj.Tokenize(b, &oj.ZeroHandler{})
+	case "oj.TokenizeLoad":
+		err = oj.TokenizeLoad(Chunked(b, chunk), &oj.ZeroHandler{})
 	case "sen.Parse":
 		// a fresh Parser: the package-level function recycles pooled instances, which is C07's subject
 		p := sen.Parser{}
